@@ -275,6 +275,9 @@ func printHarness(hr *sym.HarnessResult) {
 	for _, k := range sortedKeys(hr.Unwinds) {
 		fmt.Printf("   UNWIND x%d: %s\n", hr.Unwinds[k], k)
 	}
+	for _, k := range sortedKeys(hr.CutReasons) {
+		fmt.Printf("   path-end x%d: %s\n", hr.CutReasons[k], k)
+	}
 	for _, k := range sortedKeys(hr.Cuts) {
 		fmt.Printf("   cut x%d: %s\n", hr.Cuts[k], k)
 	}
